@@ -473,6 +473,8 @@ pub struct WriteRunStats {
     pub reopen_checks: u64,
     /// flush returned Ok but the raw bytes could not be opened / the stream not be read
     pub reopen_problems: Vec<String>,
+    pub durable_checks: u64,
+    pub durable_unreadable: u64,
 }
 
 /// Runs a mutating workload under the fault plan in `ctl` (write-side domain).
@@ -506,6 +508,9 @@ pub fn run_write_script(version: u8, max_buf: Option<u32>, script: &[WOp], ctl: 
         g.counters = Default::default();
     }
     let mut handles: Vec<Option<WHandle>> = (0..3).map(|_| None).collect();
+    // stream name index -> bytes that a successful flush made durable and that nothing has
+    // touched since (no write / set_len / create / remove on that stream, attempted or not)
+    let mut durable: BTreeMap<usize, BTreeMap<u64, u8>> = BTreeMap::new();
     let label = |ctl: &Arc<Mutex<Ctl>>| -> u64 {
         let mut g = ctl.lock().unwrap();
         g.api_call += 1;
@@ -524,6 +529,21 @@ pub fn run_write_script(version: u8, max_buf: Option<u32>, script: &[WOp], ctl: 
             let mut grow_failed: Option<(usize, u64)> = None;
             // a growing set_len that returned Ok: (stream name index, old length, new length)
             let mut grew_ok: Option<(usize, u64, u64)> = None;
+            match op {
+                WOp::CreateStream { name, .. } | WOp::RemoveStream { name } => {
+                    durable.remove(&(*name as usize % WNAMES.len()));
+                }
+                WOp::RemoveAll { name } => {
+                    let n = *name as usize % WNAMES.len();
+                    durable.retain(|k, _| !WNAMES[*k].starts_with(WNAMES[n]));
+                }
+                WOp::Write { slot, .. } | WOp::WriteAll { slot, .. } | WOp::SetLen { slot, .. } => {
+                    if let Some(h) = handles[*slot as usize % handles.len()].as_ref() {
+                        durable.remove(&h.name);
+                    }
+                }
+                _ => {}
+            }
             let res: Option<std::io::Result<()>> = match op {
                 WOp::CreateStorage { name } => {
                     let n = *name as usize % WNAMES.len();
@@ -815,8 +835,15 @@ pub fn run_write_script(version: u8, max_buf: Option<u32>, script: &[WOp], ctl: 
                                         format!("flush returned Ok but {} of {} bytes accepted by earlier writes are not in {} (stream length {}); first: offset {} expected {:#x} got {:?}", bad, expected.len(), WNAMES[name], v.len(), first.unwrap().0, first.unwrap().1, first.unwrap().2),
                                     ));
                                 }
+                                durable.insert(name, expected.clone());
                             }
                         }
+                    }
+                    // what earlier successful flushes made durable is still read back by a fresh
+                    // handle, whatever happened to other objects since (checked after every
+                    // successful flush of the whole file)
+                    if matches!(op, WOp::CfbFlush) {
+                        check_durable(&mut c, ctl, &durable, &mut st)?;
                     }
                     break;
                 }
@@ -858,9 +885,53 @@ pub fn run_write_script(version: u8, max_buf: Option<u32>, script: &[WOp], ctl: 
         }
     }
     guard("flush", || c.flush())?.ok();
+    check_durable(&mut c, ctl, &durable, &mut st)?;
     st.n_calls = ctl.lock().unwrap().domain_seq;
     st.faults_fired = ctl.lock().unwrap().counters.faults_fired;
     Ok(st)
+}
+
+/// Every stream whose bytes a successful flush made durable (and that no call has touched
+/// since) is read through a fresh handle on the live object, faults off. A read error is
+/// tolerated (later calls may fail after a fault); bytes that differ are not.
+fn check_durable(c: &mut Cfb, ctl: &Arc<Mutex<Ctl>>, durable: &BTreeMap<usize, BTreeMap<u64, u8>>, st: &mut WriteRunStats) -> Result<(), Fail> {
+    if durable.is_empty() {
+        return Ok(());
+    }
+    let enabled = {
+        let mut g = ctl.lock().unwrap();
+        let e = g.faults_enabled;
+        g.faults_enabled = false;
+        e
+    };
+    let mut out = Ok(());
+    for (&name, expected) in durable.iter() {
+        let got = guard("readback_durable", || -> std::io::Result<Vec<u8>> {
+            let mut f = c.open_stream(WNAMES[name])?;
+            let mut v = Vec::new();
+            f.read_to_end(&mut v)?;
+            Ok(v)
+        });
+        match got {
+            Err(f) => {
+                out = Err(f);
+                break;
+            }
+            Ok(Err(_)) => st.durable_unreadable += 1,
+            Ok(Ok(v)) => {
+                st.durable_checks += 1;
+                if let Some((&o, &b)) = expected.iter().find(|(&o, &b)| v.get(o as usize) != Some(&b)) {
+                    out = Err(Fail::new(
+                        "write_fault|flush_ok|later_corrupted",
+                        format!("flush on a handle of {} returned Ok and the data was read back then; no call has touched that stream since, but a fresh handle now reads length {} with byte {} = {:?} (expected {:#x})", WNAMES[name], v.len(), o, v.get(o as usize), b),
+                    ));
+                    break;
+                }
+            }
+        }
+    }
+    ctl.lock().unwrap().faults_enabled = enabled;
+    out
 }
 
 fn wop_kind(op: &WOp) -> &'static str {
